@@ -347,7 +347,10 @@ def run(ctx):
             r2 = validate(b, [small])[0]
             e2 = next((x for x in r2["errors"] if x[0] == e[0]), e)
             key = err_key(e2)
+            dup = key in reported
             reported.add(k0); reported.add(key)
+            if dup:
+                continue
             ctx.violation(key, "PkgGraph.check on the real MoonBit output (options %r) reports %s" % (it[3], "|".join(e2)),
                           {"engine": "tv", "wit": small[0], "world": small[1], "opts": small[3], "error": list(e2), "original_wit": it[0]})
     dist["generator_failures"] = dict(sorted(gen_fail.items(), key=lambda kv: -kv[1])[:6])
